@@ -1,3 +1,4 @@
 import AmaranthVerif.Model.Shape
 import AmaranthVerif.Model.Expr
 import AmaranthVerif.Spec.Denote
+import AmaranthVerif.Properties.C01
